@@ -101,7 +101,7 @@ def run_one(dst, full_name, flags, timeout, playback=False):
     return r
 
 
-def run(name, tier="quick"):
+def run(name, tier="quick", prop=None):
     t0 = time.time()
     res = {"unit": "kani:" + name, "engine": "kani", "status": "ok", "undecided": [], "harnesses": [], "failed": {}}
     try:
@@ -120,6 +120,8 @@ def run(name, tier="quick"):
     for h in cfg["harnesses"]:
         tiers = h.get("tiers")
         if tiers and tier not in tiers:
+            continue
+        if prop and h.get("scope") and prop not in h["scope"]:
             continue
         for sz in (h.get("sizes", {}).get(tier) or sizes):
             full = f"harness::{sz}::{h['name']}" if sz else f"harness::{h['name']}"
@@ -153,8 +155,13 @@ def run(name, tier="quick"):
                 if bad:
                     row["result"] = "COVER-UNSATISFIED"
                     row["output"] = "cover not reached (vacuity guard): " + "; ".join(bad)
-            if r["result"] == "FAILURE" and r.get("playback_test"):
-                row["concrete"] = {"kind": "kani-playback", "crate": name, "harness": full, "test": r["playback_test"]}
+            if r["result"] == "FAILURE":
+                test = r.get("playback_test")
+                if not test:
+                    # harness without symbolic inputs: the harness body itself is the concrete run
+                    fn = full.split("::")[-1]
+                    test = f"#[test]\nfn kani_concrete_playback_{fn}() {{\n    {fn}();\n}}\n"
+                row["concrete"] = {"kind": "kani-playback", "crate": name, "harness": full, "test": test}
             res["harnesses"].append(row)
     res["wall_s"] = round(time.time() - t0, 1)
     return res
@@ -183,7 +190,7 @@ def native_replay(ci):
         f.write(text.replace("fn main() {}", inject + "fn main() {}"))
     m = re.search(r"fn (kani_concrete_playback_\w+)", test)
     tname = m.group(1) if m else ""
-    p = subprocess.run(["cargo", "kani", "playback", "-Z", "concrete-playback", "--test", tname], cwd=dst, env=env(), capture_output=True, text=True)
+    p = subprocess.run(["cargo", "kani", "playback", "-Z", "concrete-playback", "--", tname], cwd=dst, env=env(), capture_output=True, text=True)
     out = p.stdout + p.stderr
     print(out[-3000:])
     if "panicked" in out or "FAILED" in out:
